@@ -57,6 +57,24 @@ Definition lift_where (lts : list string) (tg : trait_generics) (w : wpred) : tr
 Definition is_relaxed (b : toks) : bool := starts_with_punct "?"%char b.
 Definition trait_bounds (l : list toks) : list toks := filter (fun b => negb (is_relaxed b)) l.
 
+(** [with_bound_lifetimes]: the bounds of a higher-ranked predicate [for<'a> D: Bound<'a>] on the dependency are copied
+    into [Self: ..], so the binder moves onto each trait bound that has none of its own ([Self: for<'a> Bound<'a>]).
+    A bound is a trait bound (as opposed to a lifetime, a [use<..>] capture or tokens syn keeps verbatim) when it
+    starts with a path: an identifier or [::]; a parenthesised bound carries the binder inside its parentheses. *)
+Definition takes_binder (b : toks) : bool :=
+  match b with
+  | TId n :: _ => negb (str_mem n ["for"; "use"])
+  | TP ":" :: _ => true
+  | _ => false
+  end.
+Definition with_binder (binder b : toks) : toks :=
+  match b with
+  | [TG Paren inner] => if takes_binder inner then [TG Paren (binder ++ inner)] else b
+  | _ => if takes_binder b then binder ++ b else b
+  end.
+(** what a where predicate on the dependency contributes to its bounds *)
+Definition pred_bounds (w : wpred) : list toks := map (with_binder (wp_binder w)) (trait_bounds (wp_bounds w)).
+
 Definition where_items (g : generics) : list wpred :=
   match g_where g with Some p => p_items p | None => [] end.
 
@@ -93,7 +111,7 @@ Definition deps_where_step (lts : list string) (deps_name : string) (acc : list 
     | BPath qself leading nsegs first =>
         if qself || leading then (bounds, lift_where lts tg w)
         else if negb (Nat.eqb nsegs 1) then (bounds, lift_where lts tg w)
-        else if String.eqb first deps_name then (bounds ++ trait_bounds (wp_bounds w), tg)
+        else if String.eqb first deps_name then (bounds ++ pred_bounds w, tg)
         else (bounds, tg)      (* a predicate on another single-segment type: dropped from the trait *)
     | BOther => (bounds, lift_where lts tg w)
     end
